@@ -48,6 +48,18 @@ type Gen struct {
 	// imports of the file being generated
 	imports *[]Import
 	counter int
+	// exported top-level types of the package whose implied import name (last-but-one segment) this package
+	// shares: the package declares types of the same names, so that `seg.Name` exists in both
+	mirror []target
+}
+
+// implied short name of a package import: the element before the last one (foo.bar.v1 -> bar)
+func impliedName(pkg string) string {
+	parts := strings.Split(pkg, ".")
+	if len(parts) < 2 {
+		return pkg
+	}
+	return parts[len(parts)-2]
 }
 
 type target struct {
@@ -103,9 +115,44 @@ func (g *Gen) Bundle() *Bundle {
 	npkg := 1 + g.n(g.Cfg.MaxPkgs-1)
 	used := map[string]bool{}
 	var exported []target // types of earlier packages
+	pendingOuter := ""
 	for pi := 0; pi < npkg; pi++ {
 		var name string
-		for {
+		g.mirror = nil
+		switch {
+		case pendingOuter != "":
+			// the package whose directory CONTAINS the directory of the previous package
+			name, pendingOuter = pendingOuter, ""
+		case pi > 0 && g.chance(1, 6):
+			// a package whose directory lies BELOW that of an earlier package (platform.v1 / platform.v1.billing.v1)
+			for try := 0; try < 20 && name == ""; try++ {
+				w := pick(g, pkgWords)
+				cand := pick(g, b.Pkgs).Name + "." + w + fmt.Sprintf(".v%d", 1+g.n(2))
+				if !used[cand] && !used["seg:"+w] {
+					name = cand
+					used[cand], used["seg:"+w] = true, true
+				}
+			}
+		case pi > 0 && g.chance(1, 3):
+			// a package that implies the same import name as an earlier one (foo.bar.v1 / baz.bar.v1)
+			q := pick(g, b.Pkgs)
+			seg := impliedName(q.Name)
+			for try := 0; try < 20 && name == ""; try++ {
+				cand := pick(g, pkgWords) + "." + seg + fmt.Sprintf(".v%d", 1+g.n(2))
+				if !used[cand] && !strings.HasPrefix(q.Name, cand) && !strings.HasPrefix(cand, q.Name+".") {
+					name = cand
+					used[cand] = true
+				}
+			}
+			if name != "" {
+				for _, t := range exported {
+					if t.pkg == q.Name && !strings.Contains(t.schema, ".") {
+						g.mirror = append(g.mirror, t)
+					}
+				}
+			}
+		}
+		for name == "" {
 			segs := []string{pick(g, pkgWords)}
 			if g.chance(1, 3) {
 				segs = append(segs, pick(g, pkgWords))
@@ -116,8 +163,18 @@ func (g *Gen) Bundle() *Bundle {
 			if !used[name] && !used["seg:"+key] {
 				used[name] = true
 				used["seg:"+key] = true
+				if pi+1 < npkg && g.chance(1, 8) {
+					// this package becomes the inner one: the next package of the bundle is its directory's parent
+					w := pick(g, pkgWords)
+					inner := name + "." + w + fmt.Sprintf(".v%d", 1+g.n(2))
+					if !used[inner] && !used["seg:"+w] {
+						used[inner], used["seg:"+w] = true, true
+						name, pendingOuter = inner, name
+					}
+				}
 				break
 			}
+			name = ""
 		}
 		pkg, exp := g.pkg(name, exported)
 		b.Pkgs = append(b.Pkgs, pkg)
@@ -175,11 +232,28 @@ func (g *Gen) pkg(name string, foreign []target) (*Pkg, []target) {
 			plan = append(plan, g.elemKind())
 		}
 		names := make([]string, nel)
+		if fi == 0 && len(g.mirror) > 0 && !g.Cfg.EntityOnly {
+			// the first declaration repeats a name (and kind) of the package that shares the implied import name
+			if c := pick(g, g.mirror); !g.typeNames[c.schema] && !g.entityPrefixed(c.schema) {
+				plan[0], names[0] = c.kind, c.schema
+				g.typeNames[c.schema] = true
+			}
+		}
 		var own []target
 		for i, k := range plan {
 			switch k {
 			case KObject, KOneof, KEnum:
-				if len(foreign) > 0 && g.chance(1, 4) {
+				if names[i] != "" {
+					own = append(own, target{pkg: name, schema: names[i], kind: k, local: true})
+					continue
+				}
+				if len(g.mirror) > 0 && g.chance(2, 3) {
+					if c := pick(g, g.mirror); c.kind == k && !g.typeNames[c.schema] && !g.entityPrefixed(c.schema) {
+						names[i] = c.schema
+						g.typeNames[c.schema] = true
+					}
+				}
+				if names[i] == "" && len(foreign) > 0 && g.chance(1, 4) {
 					// a type named like a type of an earlier package (the short name is not an identity)
 					if c := pick(g, foreign); !strings.Contains(c.schema, ".") && !g.typeNames[c.schema] && !g.entityPrefixed(c.schema) {
 						names[i] = c.schema
@@ -198,6 +272,12 @@ func (g *Gen) pkg(name string, foreign []target) (*Pkg, []target) {
 			f.Elems = append(f.Elems, e)
 			own = append(own, more...)
 			g.avail = append(g.avail, more...)
+		}
+		if !g.Cfg.EntityOnly && g.chance(2, 3) {
+			if e := g.aliasClash(); e != nil {
+				f.Elems = append(f.Elems, e)
+				own = append(own, target{pkg: name, schema: e.Object.Name, kind: KObject, local: true})
+			}
 		}
 		if !g.Cfg.EntityOnly && g.chance(1, 3) {
 			if e := g.sameNamePair(); e != nil {
@@ -253,6 +333,94 @@ func (g *Gen) sameNamePair() *Elem {
 	name := g.uniq(g.typeNames, []string{"Pair", "Both", "Twin"}, nil)
 	return &Elem{Kind: KObject, Object: &Object{Name: name, Props: []*Prop{
 		{Name: "first", Field: mk(pr.a)}, {Name: "second", Field: mk(pr.b)}}}}
+}
+
+// aliasClash: two un-aliased imports that imply the same short name (import foo.bar.v1 + import baz.bar.v1) and a
+// field that goes through that name to a type both packages declare: the later import statement owns the name.
+// nil when the file can see no such pair, or already imports one of the two packages.
+func (g *Gen) aliasClash() *Elem {
+	imported := map[string]bool{}
+	implied := map[string]bool{}
+	for _, im := range *g.imports {
+		imported[im.Path] = true
+		if im.Alias == "" {
+			implied[impliedName(im.Path)] = true
+		}
+	}
+	type pair struct{ a, b target }
+	var pairs []pair
+	for i, a := range g.avail {
+		for _, b := range g.avail[i+1:] {
+			if a.schema == b.schema && a.pkg != b.pkg && !a.local && !b.local && a.pkg != g.pkgName && b.pkg != g.pkgName &&
+				!strings.Contains(a.schema, ".") && impliedName(a.pkg) == impliedName(b.pkg) && !imported[a.pkg] && !imported[b.pkg] &&
+				!implied[impliedName(a.pkg)] && impliedName(a.pkg) != impliedName(g.pkgName) {
+				pairs = append(pairs, pair{a, b})
+			}
+		}
+	}
+	if len(pairs) == 0 {
+		return nil
+	}
+	pr := pick(g, pairs)
+	if g.chance(1, 2) {
+		pr.a, pr.b = pr.b, pr.a
+	}
+	*g.imports = append(*g.imports, Import{Path: pr.a.pkg}, Import{Path: pr.b.pkg})
+	kind := map[string]string{KObject: FObject, KOneof: FOneof, KEnum: FEnum}[pr.b.kind]
+	name := g.uniq(g.typeNames, []string{"Clash", "Shadowed", "LastWins"}, nil)
+	return &Elem{Kind: KObject, Object: &Object{Name: name, Props: []*Prop{
+		{Name: "viaImplied", Field: &Field{Kind: kind, Ref: &TRef{Kind: RRef, Pkg: impliedName(pr.b.pkg), Schema: pr.b.schema}}}}}}
+}
+
+// AddImpliedClash appends three small packages to the bundle: two that imply the same import name and declare
+// a type of the same name, and one whose file imports both without alias and refers to the type through the
+// implied name. Whatever the order of the two import statements, the later one owns the name.
+func (g *Gen) AddImpliedClash(b *Bundle) {
+	for _, p := range b.Pkgs {
+		if strings.Contains(p.Name, "zzshared") || strings.HasPrefix(p.Name, "zzuser.") {
+			return
+		}
+	}
+	kind := pick(g, []string{KObject, KObject, KEnum, KOneof})
+	typeName := pick(g, []string{"Thing", "Kind", "Shared"})
+	mk := func(pkg string, n int) *Pkg {
+		e := &Elem{Kind: kind}
+		switch kind {
+		case KEnum:
+			e.Enum = &Enum{Name: typeName, Opts: []string{"ONE", "TWO", "THREE"}[:1+n]}
+		default:
+			e.Object = &Object{Name: typeName, Oneof: kind == KOneof}
+			for i := 0; i <= n; i++ {
+				f := &Field{Kind: FString}
+				if kind == KOneof {
+					f = &Field{Kind: FObject, Ref: &TRef{Kind: RInlObj}}
+				}
+				e.Object.Props = append(e.Object.Props, &Prop{Name: fmt.Sprintf("f%d", i), Field: f})
+			}
+		}
+		return &Pkg{Name: pkg, Files: []*File{{Path: strings.ReplaceAll(pkg, ".", "/") + "/shared.j5s", Elems: []*Elem{e}}}}
+	}
+	w := g.R.Perm(len(pkgWords))
+	a := mk(fmt.Sprintf("%s.zzshared.v%d", pkgWords[w[0]], 1+g.n(2)), 0)
+	c := mk(fmt.Sprintf("%s.zzshared.v%d", pkgWords[w[1]], 1+g.n(2)), 1)
+	fk := map[string]string{KObject: FObject, KOneof: FOneof, KEnum: FEnum}[kind]
+	ref := &Field{Kind: fk, Ref: &TRef{Kind: RRef, Pkg: "zzshared", Schema: typeName}}
+	switch g.n(3) {
+	case 0:
+		ref = &Field{Kind: FArray, Items: ref}
+	case 1:
+		ref = &Field{Kind: FMap, Items: ref}
+	}
+	user := &Pkg{Name: "zzuser.v1", Files: []*File{{Path: "zzuser/v1/user.j5s",
+		Imports: []Import{{Path: a.Name}, {Path: c.Name}},
+		Elems: []*Elem{{Kind: KObject, Object: &Object{Name: "LastImportWins", Props: []*Prop{
+			{Name: "viaImplied", Field: ref},
+			{Name: "viaFull", Field: &Field{Kind: fk, Ref: &TRef{Kind: RRef, Pkg: a.Name, Schema: typeName}}},
+		}}}}}}}
+	if g.chance(1, 2) {
+		user.Files[0].Imports[0], user.Files[0].Imports[1] = user.Files[0].Imports[1], user.Files[0].Imports[0]
+	}
+	b.Pkgs = append(b.Pkgs, a, c, user)
 }
 
 var entityTaken = map[string]bool{}
@@ -784,7 +952,14 @@ func (g *Gen) refTo(t target) *TRef {
 		}
 	}
 	im := Import{Path: t.pkg}
-	if g.chance(1, 3) {
+	clash := false
+	for _, o := range *g.imports {
+		// a later un-aliased import would take the implied name away from an earlier one
+		if o.Alias == "" && impliedName(o.Path) == impliedName(t.pkg) {
+			clash = true
+		}
+	}
+	if clash || g.chance(1, 3) {
 		im.Alias = pick(g, []string{"al", "dep", "other", "x"}) + fmt.Sprint(len(*g.imports))
 	}
 	*g.imports = append(*g.imports, im)
@@ -795,11 +970,16 @@ func (g *Gen) prefixFor(im Import) string {
 	if im.Alias != "" {
 		return im.Alias
 	}
-	parts := strings.Split(im.Path, ".")
-	if g.chance(1, 2) {
-		return im.Path
+	n := 0
+	for _, o := range *g.imports {
+		if o.Alias == "" && impliedName(o.Path) == impliedName(im.Path) {
+			n++
+		}
 	}
-	return parts[len(parts)-2]
+	if n > 1 || g.chance(1, 2) {
+		return im.Path // (the implied name belongs to the last of several imports)
+	}
+	return impliedName(im.Path)
 }
 
 // ---- services, topics
